@@ -39,8 +39,8 @@ ASSUMPTIONS = [
 SHARD_TIMEOUT = {'quick': 600, 'thorough': 3000}
 NSHARDS = {'quick': 16, 'thorough': 32}
 MAXN = {'quick': 4, 'thorough': 5}
-SEEDED_N5 = {'quick': 3000, 'thorough': 0}          # quick samples the length-5 chains
-SEEDED_EXT = {'quick': 6000, 'thorough': 60000}
+SEEDED_N5 = {'quick': 8000, 'thorough': 0}          # quick samples the length-5 chains
+SEEDED_EXT = {'quick': 12000, 'thorough': 120000}
 UNLESS_SHAPES = {'quick': 6, 'thorough': 40}
 
 # the options of one condition in the exhaustive family
@@ -96,16 +96,18 @@ def gen_ext(rng, maxn):
             kind = rng.choice(EXT_KINDS)
             c = make_cond(rng, kind, rng.random() < 0.4, 'c%d' % (i + 1))
         conds.append(c)
-    return finish_case(rng, 'chain', conds, rng.random() < 0.5)
+    case = finish_case(rng, 'chain', conds, rng.random() < 0.5)
+    case['boom'] = rng.random() < 0.4
+    return case
 
 
 # ---------------------------------------------------------------- one case against the engine
-def observe(case):
+def observe(case, chosen=None):
     """Render the case with the real engine -> (source, output | None, events, exception | None)."""
     from DocumentTemplate.DT_HTML import HTML
     src = U.build_source(case)
     rec = Recorder()
-    mapping, kw = U.make_namespace(case, rec)
+    mapping, kw = U.make_namespace(case, rec, U.armed_names(case, chosen))
     out = exc = None
     try:
         out = HTML(src)(None, mapping, **kw)
@@ -133,7 +135,9 @@ def run_case(ctx, case, sample=False):
     else:
         rendered_refs = case['bodies'][chosen]
     ctx.case(json.dumps(case, sort_keys=True), observable or bool(rendered_refs))
-    src, out, got_ev, exc = observe(case)
+    src, out, got_ev, exc = observe(case, chosen)
+    if U.armed_names(case, chosen):
+        ctx.count('chain:cases with the later conditions armed to raise')
     key = '%s_%s' % (fam, '-'.join('%s%s' % (c['k'], {True: 'T', False: 'F', None: ''}[c['t']])
                                    for c in conds))
     ctx.count('%s:cases' % fam)
@@ -376,6 +380,7 @@ def finish(agg):
             'monitor:evaluation events compared',
             'refs:rendered re-reference of an observable name',
             'chain:repeated name reached twice',
+            'chain:cases with the later conditions armed to raise',
             'chain:undefined name passed over as false',
             'unless:complement pairs compared', 'call:cases',
             'control:two plain references seen as two calls',
